@@ -115,6 +115,12 @@ func monC16(c *child.Ctx, replay json.RawMessage) {
 		if k.Chunk == 100 && k.Size > 20000 {
 			k.Chunk = 1000
 		}
+		if i%50 == 33 {
+			// hundreds of small reads while the recorder lags behind: nothing may be dropped
+			k.Hook = "@apps/rtcmlogger/main:writeRTCMLog:write=4000"
+			k.Size = r.Range(30000, 50000)
+			k.Stdin, k.Chunk, k.GapUs = "pipe", r.Range(90, 160), 0
+		}
 		if i%50 == 17 {
 			// a filestore that takes more than a second over the last write: "recording
 			// never ... truncates the record" has no time limit
